@@ -314,7 +314,11 @@ func c09Run(cs *c09One, replay bool) c09Outcome {
 		out.fail = &wk.Failure{Class: "invalid-case", Detail: invalid}
 		return out
 	case res.Budget:
-		out.fail = mkf("budget", SiteName(res.AbortSite), "concurrent run did not finish within the step budget")
+		var bl []string
+		for _, b := range res.Blocked {
+			bl = append(bl, fmt.Sprintf("%s blocked in %s at %s", b.Name, b.BlockOp, SiteName(b.BlockSite)))
+		}
+		out.fail = mkf("budget", SiteName(res.AbortSite), fmt.Sprintf("concurrent run did not finish within the step budget of %d steps (%d tasks, %d switches; blocked: %v)", res.Steps, res.Tasks, res.Switches, bl))
 		return out
 	case res.Deadlock:
 		out.fail = mkf("deadlock", fmt.Sprint(res.Blocked), "no task can run: "+fmt.Sprint(res.Blocked))
@@ -492,6 +496,15 @@ func C09(c *wk.Ctx) {
 			processLog = append(processLog, one)
 			before, _ := raceLogSize(c.RaceLog)
 			o := c09Run(one, true)
+			if os.Getenv("VERIF_DEBUG") == "2" {
+				tr := o.res.Trace
+				if len(tr) > 60 {
+					tr = tr[len(tr)-60:]
+				}
+				for _, t := range tr {
+					fmt.Fprintf(os.Stderr, "T %d %s -> %d @%d\n", t[0], SiteName(int(t[1])), t[2], t[3])
+				}
+			}
 			u.Evals++
 			u.Steps += o.res.Steps
 			if o.res.Diverged {
